@@ -131,7 +131,147 @@ def strip_unwind(body):
         res.append(b)
     nb = dict(body)
     nb["blocks"] = res
+    return normalise_locals(collapse_flag_switches(nb))
+
+def _places(o, f):
+    """Calls f(place_dict) for every MIR place in a JSON fragment (and for index-projection locals)."""
+    if isinstance(o, dict):
+        if "l" in o and "p" in o and isinstance(o["l"], int):
+            f(o)
+            for e in o["p"]:
+                if isinstance(e, dict) and "idx" in e:
+                    f({"l": e["idx"], "p": [], "_idx": e})
+            return
+        for v in o.values():
+            _places(v, f)
+    elif isinstance(o, list):
+        for v in o:
+            _places(v, f)
+
+def collapse_flag_switches(body):
+    """Second half of neutralising drop elaboration: a switch whose arms all reach the same block is a goto (that is what a
+    drop-flag test becomes once drops are gotos); assignments of constants to locals nobody reads (the flags) are removed.
+    Repeats until nothing changes, then re-threads and renumbers blocks."""
+    import copy
+    blocks = copy.deepcopy(body["blocks"])
+    changed = True
+    while changed:
+        changed = False
+        for b in blocks:
+            t = b["term"]
+            if t["k"] == "switch":
+                tg = {x for _, x in t["arms"]} | {t["otherwise"]}
+                if len(tg) == 1:
+                    b["term"] = {"k": "goto", "t": tg.pop()}
+                    changed = True
+        for b in blocks:
+            t = b["term"]
+            if t["k"] == "goto" and 0 <= t["t"] < len(blocks):
+                x = blocks[t["t"]]
+                if not x["stmts"] and x["term"]["k"] in ("return", "unreachable"):
+                    b["term"] = dict(x["term"])
+                    changed = True
+        reads = set()
+        for b in blocks:
+            for st in b["stmts"]:
+                if st["k"] == "assign":
+                    _places(st["rv"], lambda pl: reads.add(pl["l"]))
+                    if st["place"]["p"]:
+                        reads.add(st["place"]["l"])
+                        _places(st["place"]["p"], lambda pl: reads.add(pl["l"]))
+                else:
+                    _places(st, lambda pl: reads.add(pl["l"]))
+            t = b["term"]
+            for k, v in t.items():
+                if k == "dest" and isinstance(v, dict) and not v.get("p"):
+                    continue
+                _places(v, lambda pl: reads.add(pl["l"]))
+        for b in blocks:
+            keep = []
+            for st in b["stmts"]:
+                if st["k"] == "assign" and not st["place"]["p"] and st["place"]["l"] not in reads and st["place"]["l"] != 0 \
+                        and st["rv"]["k"] == "use" and "const" in st["rv"]["op"]:
+                    changed = True
+                    continue
+                keep.append(st)
+            b["stmts"] = keep
+        # re-thread empty goto blocks
+        def final(i, seen=()):
+            while 0 <= i < len(blocks) and not blocks[i]["stmts"] and blocks[i]["term"]["k"] == "goto" and i not in seen:
+                seen = seen + (i,)
+                i = blocks[i]["term"]["t"]
+            return i
+        for b in blocks:
+            t = b["term"]
+            if "t" in t and isinstance(t["t"], int):
+                nt = final(t["t"])
+                changed |= nt != t["t"]
+                t["t"] = nt
+            if t["k"] == "switch":
+                na = [[v, final(x)] for v, x in t["arms"]]
+                no = final(t["otherwise"])
+                changed |= na != t["arms"] or no != t["otherwise"]
+                t["arms"], t["otherwise"] = na, no
+    # renumber reachable blocks in DFS order
+    order, st, seen = [], [0], set()
+    def final0(i):
+        s2 = ()
+        while 0 <= i < len(blocks) and not blocks[i]["stmts"] and blocks[i]["term"]["k"] == "goto" and i not in s2:
+            s2 = s2 + (i,)
+            i = blocks[i]["term"]["t"]
+        return i
+    st = [final0(0)]
+    while st:
+        i = st.pop()
+        if i in seen or not (0 <= i < len(blocks)):
+            continue
+        seen.add(i)
+        order.append(i)
+        t = blocks[i]["term"]
+        succ = [x for _, x in t["arms"]] + [t["otherwise"]] if t["k"] == "switch" else ([t["t"]] if "t" in t and isinstance(t["t"], int) else [])
+        st.extend(reversed(succ))
+    ren = {old: new for new, old in enumerate(order)}
+    res = []
+    for i in order:
+        b = blocks[i]
+        t = b["term"]
+        if "t" in t and isinstance(t["t"], int):
+            t["t"] = ren.get(t["t"], -1)
+        if t["k"] == "switch":
+            t["arms"] = [[v, ren.get(x, -1)] for v, x in t["arms"]]
+            t["otherwise"] = ren.get(t["otherwise"], -1)
+        res.append(b)
+    nb = dict(body)
+    nb["blocks"] = res
     return nb
+
+def normalise_locals(body):
+    """Renumber locals in order of first appearance (return place and arguments keep their numbers) and keep only used ones:
+    extra temporaries of drop elaboration shift the numbering without changing the computation."""
+    import copy
+    body = copy.deepcopy(body)
+    argc = body.get("argc", 0)
+    order = list(range(argc + 1))
+    seen = set(order)
+    def note(pl):
+        if pl["l"] not in seen:
+            seen.add(pl["l"])
+            order.append(pl["l"])
+    for b in body["blocks"]:
+        _places(b["stmts"], note)
+        _places(b["term"], note)
+    ren = {old: new for new, old in enumerate(order)}
+    def apply(pl):
+        if "_idx" in pl:
+            pl["_idx"]["idx"] = ren[pl["l"]]
+        else:
+            pl["l"] = ren[pl["l"]]
+    for b in body["blocks"]:
+        _places(b["stmts"], apply)
+        _places(b["term"], apply)
+    locs = body.get("locals", [])
+    body["locals"] = [dict((k, v) for k, v in locs[o].items() if k != "name") if o < len(locs) else {} for o in order]
+    return body
 
 def fn_digests(cr):
     out = {}
